@@ -27,7 +27,7 @@ RULE = ('well-formed images of ten formats built from layouts with the declared 
         'virtual_size sampled after every chunk. Also streams without the size structure (truncated before it, VMDK '
         'text descriptors, non-primary ISO descriptors). non-trivial = declared size != 0 or a no-structure stream; '
         'distinct by (stream digest, schedule digest)')
-REQUIRED_CLAUSES = ['final-size', 'prefix-before-lo-is-0', 'prefix-after-hi-is-declared', 'prefix-between-0-or-declared',
+REQUIRED_CLAUSES = ['size-under-carrier-and-constructor-options', 'final-size', 'prefix-before-lo-is-0', 'prefix-after-hi-is-declared', 'prefix-between-0-or-declared',
                     'no-structure-stays-0', 'wrapper-final-size']
 ASSUMPTIONS = ['the generator writes layouts from the public format descriptions (no qemu-img available to cross-check)']
 SHARDS = {'quick': 8, 'thorough': 16}
@@ -52,7 +52,9 @@ def eval_case(ctx, case):
     declared = truth['size'] if expect == 'declared' else 0
     lo, hi = truth['lo'], truth['hi']
     n = len(data)
-    for klass, cuts in case['schedules']:
+    for sched in case['schedules']:
+        klass, cuts = sched[:2]
+        opt = sched[2] if len(sched) > 2 else {}
         state = {'bad': None, 'evals': [0, 0, 0, 0]}
 
         def cb(insp, pos):
@@ -81,8 +83,11 @@ def eval_case(ctx, case):
                 state['evals'][2] += 1
                 if v != 0 and v != declared:
                     state['bad'] = state['bad'] or ('prefix-between-0-or-declared', pos, v)
-        res = sl.feed(cls, data, cuts, monitor=False, per_chunk=cb)
-        ctx.case((spec['gen'], data, tuple(cuts)), nontrivial=(declared != 0 or expect == 'zero'))
+        res = sl.feed(cls, data, cuts, monitor=False, per_chunk=cb, carrier=opt.get('carrier', 'bytes'),
+                      ctor_kw={'tracing': True} if opt.get('tracing') else None)
+        if opt:
+            ctx.clause('size-under-carrier-and-constructor-options')
+        ctx.case((spec['gen'], data, tuple(cuts), tuple(sorted(opt.items()))), nontrivial=(declared != 0 or expect == 'zero'))
         ctx.h('format x schedule class', '%s/%s' % (spec['gen'], klass.split('-')[0]))
         ctx.clause('prefix-before-lo-is-0', state['evals'][0])
         ctx.clause('prefix-after-hi-is-declared', state['evals'][1])
@@ -94,7 +99,7 @@ def eval_case(ctx, case):
         except BaseException as e:  # noqa
             final = 'EXC:' + type(e).__name__
         ctx.clause('final-size')
-        detail_case = dict(case, failing=[klass, cuts])
+        detail_case = dict(case, failing=[klass, cuts, opt])
         if state['bad']:
             ctx.fail(state['bad'][0], detail_case, {'pos': state['bad'][1], 'got': state['bad'][2],
                                                      'declared': declared, 'lo': lo, 'hi': hi, 'format': spec['gen']})
@@ -104,18 +109,26 @@ def eval_case(ctx, case):
             ctx.fail('final-size' if expect == 'declared' else 'no-structure-stays-0', detail_case,
                      {'got': final, 'declared': declared, 'format': spec['gen'], 'schedule': klass})
     if case.get('wrapper') and expect == 'declared' and ig.sigs(data) <= {name}:
-        klass, cuts = case['schedules'][-1]
-        res = sl.feed_wrapper(data, cuts, monitor=False)
-        ctx.clause('wrapper-final-size')
-        got = None
-        try:
-            f = res['wrapper'].format
-            got = (str(f), f.virtual_size)
-        except BaseException as e:  # noqa
-            got = 'EXC:' + type(e).__name__
-        if got != (name, declared):
-            ctx.fail('wrapper-final-size', dict(case, failing=[klass, cuts]),
-                     {'got': got, 'want': [name, declared]})
+        plain = [sc for sc in case['schedules'] if len(sc) == 2]
+        klass, cuts = plain[-1][:2]
+        # the same stream through InspectWrapper: plain, with the matching expected_format given, and from a source
+        # that returns short reads; the size reported by the selected inspector is the declared one every time
+        for how, kw in (('plain', {}), ('expected_format', {'expected': name}), ('short-reads', {'short_reads': True}),
+                        ('expected_format+short-reads', {'expected': name, 'short_reads': True})):
+            res = sl.feed_wrapper(data, cuts, monitor=False, **kw)
+            ctx.clause('wrapper-final-size')
+            ctx.h('wrapper mode x format', '%s/%s' % (how, spec['gen']))
+            got = None
+            try:
+                if res['exc'] is not None:
+                    raise res['exc']
+                f = res['wrapper'].format
+                got = (str(f), f.virtual_size)
+            except BaseException as e:  # noqa
+                got = 'EXC:' + type(e).__name__
+            if got != (name, declared):
+                ctx.fail('wrapper-final-size', dict(case, failing=[klass, cuts], wrapper_mode=how),
+                         {'got': got, 'want': [name, declared], 'mode': how})
 
 
 def evaluate(ctx, case):
@@ -180,6 +193,13 @@ def run(ctx):
         scheds = [[k, c] for k, c in sl.schedules(crng, len(data), bounds, nsched, max_chunks=ctx.pick(2500, 20000))]
         if fmt in ('vhdx', 'vmdk', 'iso', 'qcow2') and truth['lo'] < len(data) + 50:
             scheds.append(['window-lo-hi', sl.window_cuts(len(data), [truth['lo'], truth['hi']], 12, coarse=1 << 20)])
+        small = [sc for sc in scheds if len(sc[1]) <= 3000]
+        for carrier in ('bytearray', 'memoryview'):
+            k, c = crng.choice(small)
+            scheds.append([k + '+' + carrier, c, {'carrier': carrier}])
+        if crng.random() < 0.5:
+            k, c = crng.choice(small)
+            scheds.append([k + '+tracing', c, {'tracing': True}])
         case = {'spec': spec, 'expect': 'declared', 'schedules': scheds, 'wrapper': crng.random() < 0.3}
         ctx.h('declared size class', size_class(truth['size']))
         if fmt == 'vhdx':
